@@ -550,9 +550,16 @@ pub fn building_g(p: &BParams) -> BoxedStrategy<BuildingG> {
                 Just(vec![]).boxed()
             };
             let fuels = allowed_fuels(&p);
+            let regime_s: BoxedStrategy<Option<RegimeG>> = if reg_p <= 0.0 {
+                Just(None).boxed()
+            } else if reg_p >= 1.0 {
+                regimeg(n, &p).prop_map(Some).boxed()
+            } else {
+                proptest::option::weighted(reg_p, regimeg(n, &p)).boxed()
+            };
             (
                 prop_oneof![1 => 0..n, 9 => Just(n - 1)],
-                proptest::option::weighted(reg_p, regimeg(n, &p)),
+                regime_s,
                 prop::bool::weighted(0.7),
                 any::<u8>(),
                 needs,
